@@ -13,7 +13,7 @@
 From Coq Require Import List NArith ZArith Bool Permutation.
 From Common Require Import Outcome.
 From BlockTree Require Import Model Spec ProofsTree ProofsPath ProofsSpec ProofsSim ProofsQuery
-  ProofsBest ProofsHist ProofsPre ProofsNum ProofsLca ProofsMore.
+  ProofsBest ProofsHist ProofsPre ProofsNum ProofsLca ProofsMore ProofsShape ProofsAtNum.
 Import ListNotations.
 Local Open Scope N_scope.
 
@@ -35,18 +35,43 @@ Proof.
 Qed.
 Print Assumptions C15_refines_block_set.
 
+(* The first sentence of the property read over the whole HISTORY, without the specification's
+   transition system in between: under hash uniqueness (a hash determines the header's parent;
+   no added header has the hash of the initial root), after any history the tree holds exactly
+   the blocks reached from its current root -- the last effective finalisation target, or the
+   initial root -- through the parent links of the additions the history ACCEPTED
+   (accepted: the records of the AddBlock calls that answered nil, in order; each is an
+   addition of the history with the hash, parent, number and arrival of its header). *)
+Theorem C15_holds_exactly_added_descendants : forall h x a ops,
+  hashes_determine_headers h ops ->
+  let t := tree_after h x a ops in
+  (forall y, In y (get_all_blocks t) <->
+             descends (accepted (mkSst h x []) ops) (nhash (root t)) y)
+  /\ (forall b, In b (accepted (mkSst h x []) ops) ->
+       exists hd arr, In (OAdd hd arr) ops /\ b_hash b = h_hash hd /\ b_parent b = h_parent hd
+                      /\ b_number b = h_number hd /\ b_arrival b = arr).
+Proof.
+  intros h x a ops H t. split.
+  - exact (tree_shape h x a ops H).
+  - exact (accepted_origin ops (mkSst h x [])).
+Qed.
+Print Assumptions C15_holds_exactly_added_descendants.
+
+(* One AddBlock on a reachable tree: an accepted addition adds exactly its block (which was not
+   held, below a parent that was held); a refused one leaves the tree unchanged (definition of
+   [step]). *)
+Theorem C15_add_exact : forall h x a ops hd arr t',
+  let t := tree_after h x a ops in
+  add_block t hd arr = Ok t' ->
+  Permutation (get_all_blocks t') (h_hash hd :: get_all_blocks t)
+  /\ ~ In (h_hash hd) (get_all_blocks t) /\ In (h_parent hd) (get_all_blocks t).
+Proof. intros h x a ops hd arr t' t. exact (add_block_exact t _ hd arr t' (sim_after h x a ops)). Qed.
+Print Assumptions C15_add_exact.
+
 (* the leaves of the specification are, by definition, the held blocks that are nobody's parent *)
 Theorem C15_leaves_are_childless : forall s y,
   In y (s_leaves s) <-> In y (s_hashes s) /\ forall b, In b (s_blocks s) -> b_parent b <> y.
-Proof.
-  intros s y. unfold s_leaves. rewrite filter_In, negb_true_iff. split.
-  - intros (H & E). split; auto. intros b Hb Hp.
-    assert (existsb (fun b => b_parent b =? y) (s_blocks s) = true).
-    { apply existsb_exists. exists b. split; auto. apply N.eqb_eq; auto. }
-    congruence.
-  - intros (H & E). split; auto. destruct (existsb _ _) eqn:X; auto.
-    apply existsb_exists in X as (b & Hb & Hp). apply N.eqb_eq in Hp. exfalso. eapply E; eauto.
-Qed.
+Proof. exact leaves_are_childless. Qed.
 Print Assumptions C15_leaves_are_childless.
 
 (* in every reachable state the executable parent-link walk of the specification is the
@@ -98,20 +123,24 @@ Print Assumptions C15_queries_follow_parent_links.
    GetHashByNumber(n) is the block with number n on the parent chain of the best block (the
    fork choice of property C16), with the same error classes as the specification.
    GetAllDescendants(p) is the set of held blocks that descend from p; GetHashesAtNumber(n)
-   only reports held blocks with number n, each once. *)
+   only reports held blocks with number n, each once, and (check_at_number_full) between the
+   root's and the best block's number it reports ALL of them; outside that interval it answers
+   the empty list by design of the code. *)
 Theorem C15_lca_and_by_number_follow_parent_links : forall h x a ops p q n,
   let t := tree_after h x a ops in
   let s := spec_after h x ops in
   lowest_common_ancestor t p q = s_lca s p q
   /\ get_hash_by_number t n = s_hash_by_number s n
   /\ check_descendants s p (get_all_descendants t p) = true
-  /\ match get_hashes_at_number t n with Ok l => check_at_number s n l = true | _ => False end.
+  /\ match get_hashes_at_number t n with Ok l => check_at_number s n l = true | _ => False end
+  /\ match get_hashes_at_number t n with Ok l => check_at_number_full s n l = true | _ => False end.
 Proof.
   intros h x a ops p q n. repeat split.
   - exact (sim_lca _ _ p q (sim_after h x a ops)).
   - exact (sim_hash_by_number _ _ n (sim_after h x a ops)).
   - exact (sim_descendants _ _ p (sim_after h x a ops)).
   - exact (sim_at_number _ _ n (sim_after h x a ops)).
+  - exact (sim_at_number_full _ _ n (sim_after h x a ops)).
 Qed.
 Print Assumptions C15_lca_and_by_number_follow_parent_links.
 
@@ -122,8 +151,28 @@ Example C15_nonvacuous :
   snd (run (new_tree 100 0 0%Z) ops) =
     [RAdd (Ok tt); RAdd (Ok tt); RAdd (Ok tt); RAdd (Ok tt); RAdd (Ok tt); RFin [1; 3; 4]]
   /\ get_all_blocks (tree_after 100 0 0%Z ops) = [2; 5]
-  /\ get_leaves_of (tree_after 100 0 0%Z ops) = [5].
+  /\ get_leaves_of (tree_after 100 0 0%Z ops) = [5]
+  /\ map b_hash (accepted (mkSst 100 0 []) ops) = [1; 2; 3; 4; 5]
+  /\ get_hashes_at_number (tree_after 100 0 0%Z (removelast ops)) 1 = Ok [1; 2; 3; 4]
+  /\ check_at_number_full (spec_after 100 0 (removelast ops)) 1 [4; 2; 3; 1] = true
+  /\ check_at_number_full (spec_after 100 0 (removelast ops)) 1 [4; 2; 3] = false.
 Proof. vm_compute. repeat split; reflexivity. Qed.
+
+Example C15_hash_hypothesis_satisfiable :
+  hashes_determine_headers 100 [w_child 1; w_child 2; OAdd (mkHeader 5 2 2 DSecondaryPlain) 1%Z; OFin 2;
+                                w_child 1 (* re-delivery of an abandoned block: refused *)]
+  /\ snd (run (new_tree 100 0 0%Z)
+              [w_child 1; w_child 2; OAdd (mkHeader 5 2 2 DSecondaryPlain) 1%Z; OFin 2; w_child 1])
+     = [RAdd (Ok tt); RAdd (Ok tt); RAdd (Ok tt); RFin [1]; RAdd (Err e_parent_not_found)].
+Proof.
+  split; [|vm_compute; reflexivity]. split.
+  - intros hd a hd' a' H1 H2 E. simpl in H1, H2. unfold w_child in *.
+    repeat (destruct H1 as [H1|H1]; [inversion H1; subst; clear H1|]); try contradiction;
+    repeat (destruct H2 as [H2|H2]; [inversion H2; subst; clear H2|]); try contradiction;
+    simpl in *; try reflexivity; try discriminate.
+  - intros hd a H. simpl in H. unfold w_child in *.
+    repeat (destruct H as [H|H]; [inversion H; subst; simpl; discriminate|]). contradiction.
+Qed.
 
 (* The pinned tree before fixes/C15-prune-iterate-copy.patch: node.prune ranged over the slice
    that deleteChild shifts; with three or more siblings pruned hashes are skipped or repeated. *)
